@@ -16,12 +16,21 @@ class TypeType(TypeDecorator):
     impl = types.String(256)
 
     def process_bind_param(self, value: Type, dialect):
-        return module_and_class_name(value)
+        # the qualified name keeps the enclosing classes of a nested class
+        return f"{value.__module__}.{value.__qualname__}"
 
     def process_result_value(self, value: impl, dialect) -> Optional[Type]:
         if value is None:
             return None
 
-        module_name, class_name = str(value).rsplit(".", 1)
-        module = importlib.import_module(module_name)
-        return getattr(module, class_name)
+        names = str(value).split(".")
+        # the longest importable prefix is the module, the remaining names lead through the enclosing classes
+        for number_of_module_names in range(len(names) - 1, 0, -1):
+            try:
+                owner = importlib.import_module(".".join(names[:number_of_module_names]))
+            except ModuleNotFoundError:
+                continue
+            for name in names[number_of_module_names:]:
+                owner = getattr(owner, name)
+            return owner
+        raise ModuleNotFoundError(f"No module found for {value}")
